@@ -16,6 +16,7 @@
 import abc
 import copy
 import enum
+import functools
 import inspect
 import json
 import os
@@ -1807,8 +1808,10 @@ def lt(left: Any, right: Any) -> bool:
     # only when left has a smaller length.
     return len(left) < len(right)
   elif isinstance(left, dict):
-    lkeys = list(left.keys())
-    rkeys = list(right.keys())
+    # NOTE: keys are compared in their symbolic order rather than in insertion
+    # order, so that `lt` is consistent with `eq`, which treats keys as a set.
+    lkeys = _sorted_keys(left)
+    rkeys = _sorted_keys(right)
     min_len = min(len(lkeys), len(rkeys))
     for i in range(min_len):
       kl, kr = lkeys[i], rkeys[i]
@@ -1823,6 +1826,14 @@ def lt(left: Any, right: Any) -> bool:
   elif hasattr(left, 'sym_lt'):
     return left.sym_lt(right)
   return left < right
+
+
+def _sorted_keys(value: Dict[Any, Any]) -> List[Any]:
+  """Returns the keys of a dict sorted by their symbolic order."""
+  return sorted(
+      value.keys(),
+      key=functools.cmp_to_key(
+          lambda x, y: -1 if lt(x, y) else (1 if lt(y, x) else 0)))
 
 
 def gt(left: Any, right: Any) -> bool:
